@@ -32,6 +32,13 @@ def gen_stream(rng):
         elif r < 0.90:
             ml, op = rng.choice(list(wire.header_lattice()))
             frames.append(struct.pack('!iB', ml, op) + bytes(rng.randrange(256) for _ in range(rng.randint(0, 6))))
+        elif r < 0.93:
+            # a frame just above its opcode's limit, with its whole body present
+            op = rng.choice([1, 2, 1])
+            lim = P.SIZES.get(op, P.MAXBUF)
+            ml = lim + rng.choice([1, 2, 7, 40])
+            body = P.strpack8(rng.choice(['hpfeeds', 'n', ''])) if op == 1 else b''
+            frames.append(struct.pack('!iB', ml, op) + body + bytes(rng.randrange(256) for _ in range(ml - 5 - len(body))))
         elif r < 0.96:
             # well-framed but malformed body
             frames.append(P.msghdr(rng.choice([0, 1, 2, 3, 4, 5]), rng.choice([b'', b'\x05ab', b'\x01\xff', b'\x01a\xc3', b'\x02ab'])))
@@ -44,12 +51,13 @@ def gen_stream(rng):
             if d:
                 d[rng.randrange(len(d))] = rng.choice([0, 1, 5, 6, 0xff, 0x80])
         data = bytes(d)
-    return data
+        frames = None
+    return data, frames
 
 
 def run(ctx, res):
     res.rule = ('byte streams of 1-5 frames (INFO, PUBLISH, ERROR, broker-only opcodes, boundary-lattice headers, well-framed '
-                'malformed bodies, random bytes; a quarter with mutated bytes) in random chunkings, fed in lock-step to recording '
+                'malformed bodies, frames just above the limit of their opcode with the whole body, random bytes; a quarter with mutated bytes) in random chunkings or one read per frame, fed in lock-step to recording '
                 'subclasses of the three real ClientProtocol classes; each class is compared per chunk with its Coq model up to its '
                 'first dropping chunk, and the three logs with each other; non-trivial = at least one handler call; distinct by '
                 '(stream, cut points)')
@@ -57,8 +65,11 @@ def run(ctx, res):
     for k in range(ctx.n(450, 8000)):
         rng = ctx.rng('c16/%d' % k)
         ident, secret = rng.choice([('ident', 'secret'), ('ü', 'pä'), ('', '')])
-        data = gen_stream(rng)
-        chunks = wire.cut(rng, data)
+        data, frames = gen_stream(rng)
+        if frames and rng.random() < 0.3:
+            chunks = [f for f in frames if f]          # every frame arrives as exactly one read
+        else:
+            chunks = wire.cut(rng, data)
         rows = cp.drive(ident, secret, chunks)
         orc = None
         a, bl, t = rows['aio'], rows['blk'], rows['tw']
